@@ -19,7 +19,8 @@ import os
 import vlib
 
 REAL_MB = 20010
-KEEP = {"Cfg", "Call", "Ret", "Tick", "Minute", "Fill", "MailReject", "Snap", "Quiesced", "Yield", "Resume", "NestedMail"}
+KEEP = {"Cfg", "Call", "Ret", "Tick", "Minute", "Fill", "MailReject", "RcptReject", "MoreRcpt", "Snap", "Quiesced", "Yield",
+        "Resume", "NestedMail"}
 
 CFG = """SPECIFICATION %(spec)s
 CONSTANTS
@@ -57,13 +58,16 @@ def _names(prefix, n, quote):
 
 def cfg(msgs=2, ips=2, srcs=2, dsts=1, nall="0,1", nip="0,1", nsrc="0,1", ndst="0,1", mb="1",
         maxops=1, fill=False, devs=(), eager=False, gen=False, tail=MC_TAIL, strings=False,
-        probers=0, spec="Spec", remote=False, endp=False, rawkey=False):
+        probers=0, spec="Spec", remote=False, endp=False, rawkey=False, special=False):
+    """special: the key populations also contain the source key "null" (MAIL FROM:<>, limited under the empty
+    domain) and the ip key "lo" (no TCP peer address: limited under 127.0.0.1)"""
     m = _names("m", msgs, strings)
     p = _names("q", probers, strings)
     if probers:
         m = m + ", " + p
-    return CFG % dict(spec=spec, msgs=m, probers=p, ips=_names("i", ips, strings),
-                      srcs=_names("s", srcs, strings) + (', "raw"' if rawkey else ""), dsts=_names("d", dsts, strings),
+    return CFG % dict(spec=spec, msgs=m, probers=p, ips=_names("i", ips, strings) + (', "lo"' if special else ""),
+                      srcs=_names("s", srcs, strings) + (', "raw"' if rawkey else "") + (', "null"' if special else ""),
+                      dsts=_names("d", dsts, strings),
                       nall=nall, nip=nip, nsrc=nsrc, ndst=ndst, mb=mb, maxops=maxops,
                       fill="TRUE" if fill else "FALSE",
                       devs=", ".join('"%s"' % d for d in devs),
@@ -145,7 +149,7 @@ def trace_cfg(odev, level):
     devs = sorted(set(odev) | set(w for f in odev.values() for w in f["match"].get("with", [])))
     return cfg(msgs=3, probers=3, ips=8, srcs=8, dsts=8, nall="0", nip="0", nsrc="0", ndst="0", mb="1",
                maxops=99, fill=True, devs=devs, eager=True, gen=False, tail=TRACE_TAIL, strings=True,
-               spec="TSpec", remote=level == "remote", endp=level == "endpoint", rawkey=True)
+               spec="TSpec", remote=level == "remote", endp=level == "endpoint", rawkey=True, special=True)
 
 
 def classify(ctx, verdicts, by_t, by_id, odev, selftest, stats, level):
@@ -211,7 +215,7 @@ def interesting(b):
     """a history in which callers meet: same key used by two callers, a tick, a fill"""
     keys = {}
     for s in b["hist"]:
-        if s["a"] in ("Tick", "Minute", "Fill"):
+        if s["a"] in ("Tick", "Minute", "Fill", "RcptReject"):
             return True
         if s["a"] == "TakeMsg":
             for k in ("*", s["ip"], s["src"]):
@@ -219,6 +223,24 @@ def interesting(b):
         if s["a"] == "TakeDest":
             keys.setdefault(s["d"], set()).add(s["m"])
     return any(len(v) > 1 for v in keys.values())
+
+
+def special_key(s):
+    """a step that uses the null reverse-path or a message without a TCP peer address"""
+    return s["a"] == "TakeMsg" and (s["src"] == "null" or s["ip"] == "lo")
+
+
+def stratified_pick(rng, got, strata, n):
+    """up to `quota` behaviours that contain a step satisfying `pred`, per stratum in order, without repetition;
+    the rest of the n at random"""
+    pick, seen = [], set()
+    for pred, quota in strata:
+        cand = [b for b in got if id(b) not in seen and any(pred(s) for s in b["hist"])]
+        for b in vlib.sample(rng, cand, quota):
+            seen.add(id(b))
+            pick.append(b)
+    rest = [b for b in got if id(b) not in seen]
+    return pick + vlib.sample(rng, rest, max(0, n - len(pick)))
 
 
 def validate_parallel(ctx, events, cfg_text, groups, name="tv"):
@@ -296,11 +318,11 @@ def run(ctx, replay):
             # the next hop may refuse MAIL
             "gen-remote": (cfg(msgs=3, ips=2, srcs=2, dsts=2, nall="0,1", nip="0,1", nsrc="0,1,2",
                                ndst="1,2", mb=str(REAL_MB), maxops=2, eager=True, gen=True, remote=True,
-                               tail=GEN_TAIL, strings=True), n_rem, 60),
+                               tail=GEN_TAIL, strings=True, special=True), n_rem, 60),
             # endpoint level: SMTP sessions (startDelivery / releaseLimits), the pipeline may refuse the sender
             "gen-endpoint": (cfg(msgs=3, ips=2, srcs=2, dsts=1, nall="0,1,2", nip="0,1,2", nsrc="0,1,2",
                                  ndst="0", mb=str(REAL_MB), maxops=2, eager=True, gen=True, endp=True,
-                                 tail=GEN_TAIL, strings=True), n_endp, 60),
+                                 tail=GEN_TAIL, strings=True, special=True), n_endp, 60),
         }
         if thorough:
             # long histories: up to 3 x 21 = 63 deliveries
@@ -336,11 +358,12 @@ def run(ctx, replay):
             cold = [b for b in got if not interesting(b)]
             pick = vlib.sample(ctx.rng, hot, n - n // 10) + vlib.sample(ctx.rng, cold, n // 10)
             if k == "gen-remote":
-                rej = [b for b in got if any(s["a"] == "MailReject" for s in b["hist"])]
-                rtls = [b for b in got if any(s.get("reqtls") for s in b["hist"])]
-                pick = vlib.sample(ctx.rng, rej, n // 3)
-                pick += vlib.sample(ctx.rng, [b for b in rtls if not any(b is x for x in pick)], n // 3)
-                pick += vlib.sample(ctx.rng, [b for b in got if not any(b is x for x in pick)], n - len(pick))
+                # strata: the next hop refuses MAIL / refuses the first RCPT of a domain / a further recipient on a
+                # connected domain / REQUIRETLS cannot be met / null reverse-path or no TCP peer address
+                strata = [(lambda s: s["a"] == "MailReject", n // 5), (lambda s: s["a"] == "RcptReject", n // 4),
+                          (lambda s: s["a"] == "MoreRcpt", n // 6), (lambda s: s.get("reqtls"), n // 5),
+                          (special_key, n // 6)]
+                pick = stratified_pick(ctx.rng, got, strata, n)
                 for b in pick:
                     b["level"] = "remote"
                     # how each delivery ends is the environment's choice: pooled or non-poolable connection
@@ -349,9 +372,8 @@ def run(ctx, replay):
                         if st["a"] == "End":
                             st["how"] = ctx.rng.choice(["abort", "commit", "datafail", "drop", "rsetfail"])
             if k == "gen-endpoint":
-                nest = [b for b in got if any(s["a"] == "NestedMail" for s in b["hist"])]
-                pick = vlib.sample(ctx.rng, nest, n // 2)
-                pick += vlib.sample(ctx.rng, [b for b in got if not any(b is x for x in pick)], n - len(pick))
+                strata = [(lambda s: s["a"] == "NestedMail", n // 2), (special_key, n // 4)]
+                pick = stratified_pick(ctx.rng, got, strata, n)
                 for b in pick:
                     b["level"] = "endpoint"
                     b["defer"] = ctx.rng.random() < 0.5
@@ -361,7 +383,7 @@ def run(ctx, replay):
                             st["raw"] = ctx.rng.random() < 0.3
                         if st["a"] == "TakeMsg":
                             st["raw"] = ctx.rng.random() < 0.3
-                            st["how"] = ctx.rng.choice(["reset", "logout", "data", "datafail"])
+                            st["how"] = ctx.rng.choice(["reset", "logout", "data", "datafail", "rcptrej"])
             ctx.cov.setdefault("generated", {})[k] = {"printed": len(got), "replayed": len(pick)}
             behs += pick
         if not behs:
@@ -478,10 +500,16 @@ def run(ctx, replay):
         "returned ok for, domains before the message)",
         "remote level: real remote.Target deliveries (verif constructor) over an in-memory resolver and net.Pipe "
         "connections to a minimal scripted SMTP server; no TLS, no MX policies; Start/AddRcpt/Abort are observed as "
-        "TakeMsg/TakeDest/End",
+        "TakeMsg/TakeDest/End; the next hop may refuse MAIL, the first RCPT of a domain (RcptReject: from then on the "
+        "message need not hold that destination permit, but it must be back when the delivery ends) and further "
+        "recipients (MoreRcpt: no limit operation); DATA without an accepted recipient is answered 503",
+        "key populations of the remote and endpoint levels contain the null reverse-path (source key \"null\" = empty "
+        "sender domain) and a message without a TCP peer address (ip key \"lo\" = 127.0.0.1: no connection state or a "
+        "unix-socket peer)",
         "endpoint level: real endpoint/smtp sessions created without a socket (verif export) on an endpoint built "
         "from configuration nodes; Mail(+first Rcpt when deferred) is observed as TakeMsg, RSET/close/DATA as "
-        "ReleaseMsg; after DATA the harness issues the RSET go-smtp would issue",
+        "ReleaseMsg (also after a recipient refused by the pipeline); after DATA the harness issues the RSET go-smtp "
+        "would issue",
         "time is the fake clock of a testing/synctest bubble (Tick = 2.5 s, Minute = 61 s); blocked = durably "
         "blocked after synctest.Wait()",
         "permits in use are read through the verif export accessors (length of Semaphore.c per bucket)",
@@ -505,8 +533,10 @@ META = {
             "against the real table capacity of 20010, a probe after quiescence that N permits can be acquired "
             "again and the N+1st waits, and histories whose callers are real remote deliveries and real SMTP sessions.",
     "note": "Three levels: limits.Group driven directly (API), through real remote.Target deliveries against an in-memory "
-            "scripted SMTP server (MAIL refusal by the next hop), and through real endpoint/smtp sessions without a "
-            "socket (sender refusal by the pipeline, RSET/close/DATA endings, non-normalised sender spelling). Time is "
+            "scripted SMTP server (MAIL / RCPT refusal by the next hop, further recipients on a connected domain), and "
+            "through real endpoint/smtp sessions without a socket (sender / recipient refusal by the pipeline, "
+            "RSET/close/DATA endings, non-normalised sender spelling); both with the null reverse-path and with messages "
+            "that have no TCP peer address. Time is "
             "the fake clock of a synctest bubble; rate limiters are not exercised; trusted: TLC, the harness, Go "
             "toolchain, the verif accessors.",
     "design_ref": "DESIGN.md section 5 C11",
